@@ -141,6 +141,9 @@ class EnvironmentDataDescription(ComplexDop):
                      "the referenced parameter.")
             return
 
+        # names of the parameters of the applicable environment data objects
+        known_param_names = set()
+
         # deal with the "all value" environment data. This holds
         # parameters that are common to all DTCs. Be aware that the
         # specification mandates that there is at most one such
@@ -151,6 +154,7 @@ class EnvironmentDataDescription(ComplexDop):
                 encode_state.allow_unknown_parameters = True
                 env_data.encode_into_pdu(physical_value, encode_state)
                 encode_state.allow_unknown_parameters = tmp
+                known_param_names.update(p.short_name for p in env_data.parameters)
                 break
 
         # find the environment data corresponding to the given trouble
@@ -161,7 +165,17 @@ class EnvironmentDataDescription(ComplexDop):
                 encode_state.allow_unknown_parameters = True
                 env_data.encode_into_pdu(physical_value, encode_state)
                 encode_state.allow_unknown_parameters = tmp
+                known_param_names.update(p.short_name for p in env_data.parameters)
                 break
+
+        # since the parameter values of all applicable environment
+        # data objects are specified using a common dictionary, these
+        # objects cannot detect unknown parameters themselves
+        if isinstance(physical_value, dict) and not encode_state.allow_unknown_parameters:
+            for param_value_name in physical_value:
+                if param_value_name not in known_param_names:
+                    odxraise(f"Value for unknown parameter '{param_value_name}' specified "
+                             f"for environment data description {self.short_name}")
 
     @override
     def decode_from_pdu(self, decode_state: DecodeState) -> ParameterValue:
